@@ -71,50 +71,3 @@ Definition child (o : vop) : vnode := {| n_op := o; n_parent := 0 |}.
 Definition doc_of (ins outs : row) (ops : list vop) (h : hugr) : graph :=
   {| g_nodes := child (DFG ins outs) :: child (Input ins) :: child (Output outs) :: map child ops;
      g_edges := map shift_link (h_links h) |}.
-
-(* ------------------------------------------------------------------ circuits: a premise on the TRACKED program *)
-(* A circuit over the tracked inputs: TrackedDfg(ins..., track_inputs=True); every command is add / extend of an
-   operation with a fixed signature whose arguments are all tracked indices, in range, pairwise distinct, and
-   whose input row AND output row are the types currently at those indices (a gate: every index keeps its
-   type); the last command is set_tracked_outputs.  `slots` = the type at each index (no untrack: never a hole). *)
-Fixpoint arg_ints (args : list arg) : option (list Z) :=
-  match args with
-  | [] => Some []
-  | AI i :: r => match arg_ints r with Some l => Some (i :: l) | None => None end
-  | AW _ :: _ => None
-  end.
-Definition slot_ty (slots : row) (i : Z) : option tyid :=
-  if (i <? 0)%Z then None else nth_error slots (Z.to_nat i).
-Fixpoint slot_tys (slots : row) (is : list Z) : option row :=
-  match is with
-  | [] => Some []
-  | i :: r => match slot_ty slots i, slot_tys slots r with Some t, Some ts => Some (t :: ts) | _, _ => None end
-  end.
-Definition gate_ok (slots : row) (o : opspec) (op : opd) (args : list arg) : bool :=
-  match o, arg_ints args with
-  | OFixed i oo, Some is =>
-      nodupb Z.eqb is && (op_out op =? lenN oo) &&
-      match slot_tys slots is with Some ts => row_eqb i ts && row_eqb oo ts | None => false end
-  | _, _ => false
-  end.
-(* consumes the specs in creation order *)
-Fixpoint gates_ok (slots : row) (specs : list opspec) (coms : list (opd * list arg)) : option (list opspec) :=
-  match coms with
-  | [] => Some specs
-  | (op, args) :: r =>
-      match specs with
-      | o :: specs' => if gate_ok slots o op args then gates_ok slots specs' r else None
-      | [] => None
-      end
-  end.
-Fixpoint circuit_from (slots : row) (specs : list opspec) (p : list cmd) : bool :=
-  match p with
-  | [] => false
-  | [SetTrackedOutputs] => true
-  | Add op _ args :: r =>
-      match gates_ok slots specs [(op, args)] with Some specs' => circuit_from slots specs' r | None => false end
-  | Extend coms :: r =>
-      match gates_ok slots specs coms with Some specs' => circuit_from slots specs' r | None => false end
-  | _ => false
-  end.
-Definition circuit_ok (ins : row) (specs : list opspec) (p : list cmd) : bool := circuit_from ins specs p.
